@@ -55,3 +55,537 @@ theorem baseRelocsRef_ok {v : View} {r : Ref} (h : v.baseRelocsRef = .ok r) :
     exact ⟨va, size, s, hdd, hs, rfl⟩
 
 end Pelite.Pe
+
+/-! ## the printed text reads back: `Json.parse (Json.print j) = some j` -/
+namespace Pelite.Json
+
+/-! ### unfolding lemmas (the generated equations split along the nested matches) -/
+
+theorem readStrBody_cons (c : Nat) (r : List Nat) : readStrBody (c :: r) =
+    if c = 34 then some ([], r)
+    else if c = 92 then
+      match r with
+      | [] => none
+      | e :: r1 =>
+        if e = 117 then
+          match r1 with
+          | a :: b :: x :: y :: r2 =>
+            if a = 48 ∧ b = 48 then
+              match hexVal x, hexVal y with
+              | some hx, some hy =>
+                if 16 * hx + hy < 128 then
+                  (readStrBody r2).map (fun p => ((16 * hx + hy) :: p.1, p.2))
+                else none
+              | _, _ => none
+            else none
+          | _ => none
+        else
+          match unescChar e with
+          | some v => (readStrBody r1).map (fun p => (v :: p.1, p.2))
+          | none => none
+    else if c < 32 then none
+    else (readStrBody r).map (fun p => (c :: p.1, p.2)) := by
+  rw [readStrBody.eq_def] <;> rfl
+
+theorem parseVal_cons (fuel c : Nat) (r : List Nat) : parseVal (fuel + 1) (c :: r) =
+    if isDigit c then (readNum (c :: r)).map (fun p => (Json.num p.1, p.2))
+    else if c = 110 then (expect [117, 108, 108] r).map (fun r' => (Json.null, r'))
+    else if c = 116 then (expect [114, 117, 101] r).map (fun r' => (Json.bool true, r'))
+    else if c = 102 then (expect [97, 108, 115, 101] r).map (fun r' => (Json.bool false, r'))
+    else if c = 34 then (readStrBody r).map (fun p => (Json.str p.1, p.2))
+    else if c = 91 then
+      match r with
+      | [] => none
+      | d :: r' =>
+        if d = 93 then some (Json.arr [], r')
+        else (parseElems fuel (d :: r')).map (fun p => (Json.arr p.1, p.2))
+    else if c = 123 then
+      match r with
+      | [] => none
+      | d :: r' =>
+        if d = 125 then some (Json.obj [], r')
+        else (parseMembers fuel (d :: r')).map (fun p => (Json.obj p.1, p.2))
+    else none := by
+  rw [parseVal.eq_def] <;> rfl
+
+theorem parseElems_succ (fuel : Nat) (t : List Nat) : parseElems (fuel + 1) t =
+    match parseVal fuel t with
+    | none => none
+    | some (_, []) => none
+    | some (v, c :: r) =>
+      if c = 93 then some ([v], r)
+      else if c = 44 then (parseElems fuel r).map (fun p => (v :: p.1, p.2))
+      else none := by
+  rw [parseElems.eq_def] <;> rfl
+
+theorem parseMembers_succ (fuel : Nat) (t : List Nat) : parseMembers (fuel + 1) t =
+    match readStr t with
+    | none => none
+    | some (_, []) => none
+    | some (k, d :: r1) =>
+      if d = 58 then
+        match parseVal fuel r1 with
+        | none => none
+        | some (_, []) => none
+        | some (v, e :: r2) =>
+          if e = 125 then some ([(k, v)], r2)
+          else if e = 44 then (parseMembers fuel r2).map (fun p => ((k, v) :: p.1, p.2))
+          else none
+      else none := by
+  rw [parseMembers.eq_def] <;> rfl
+
+/-! ### examples -/
+
+-- {"a":[1,null,"x\n"],"":{}}
+example : parse [123, 34, 97, 34, 58, 91, 49, 44, 110, 117, 108, 108, 44, 34, 120, 92, 110, 34, 93,
+      44, 34, 34, 58, 123, 125, 125]
+    = some (.obj [([97], .arr [.num 1, .null, .str [120, 10]]), ([], .obj [])]) := by rfl
+-- [1,]
+example : parse [91, 49, 44, 93] = none := by rfl
+-- 01
+example : parse [48, 49] = none := by rfl
+-- "a
+example : parse [34, 97] = none := by rfl
+-- "a<LF>"
+example : parse [34, 97, 10, 34] = none := by rfl
+-- nul
+example : parse [110, 117, 108] = none := by rfl
+-- [] {} 0 [0,10] true false
+example : parse [91, 93] = some (.arr []) := by rfl
+example : parse [123, 125] = some (.obj []) := by rfl
+example : parse [48] = some (.num 0) := by rfl
+example : parse [91, 48, 44, 49, 48, 93] = some (.arr [.num 0, .num 10]) := by rfl
+example : parse [116, 114, 117, 101] = some (.bool true) := by rfl
+example : parse [102, 97, 108, 115, 101] = some (.bool false) := by rfl
+-- "\u001F\u001f\/" : both hex cases, the solidus escape
+example : parse [34, 92, 117, 48, 48, 49, 70, 92, 117, 48, 48, 49, 102, 92, 47, 34]
+    = some (.str [31, 31, 47]) := by rfl
+-- bytes 0x7F and >= 0x80 verbatim
+example : parse [34, 127, 195, 169, 34] = some (.str [127, 195, 169]) := by rfl
+-- duplicate keys kept in order: {"a":1,"a":2}
+example : parse [123, 34, 97, 34, 58, 49, 44, 34, 97, 34, 58, 50, 125]
+    = some (.obj [([97], .num 1), ([97], .num 2)]) := by rfl
+-- rejected: "\u0080" (outside the subset), "\x", -1, 1.5, 1e3, " 1", "1 ", {"a":1,}, {"a"}, [1 2], 1 1, empty text
+example : parse [34, 92, 117, 48, 48, 56, 48, 34] = none := by rfl
+example : parse [34, 92, 120, 34] = none := by rfl
+example : parse [45, 49] = none := by rfl
+example : parse [49, 46, 53] = none := by rfl
+example : parse [49, 101, 51] = none := by rfl
+example : parse [32, 49] = none := by rfl
+example : parse [49, 32] = none := by rfl
+example : parse [123, 34, 97, 34, 58, 49, 44, 125] = none := by rfl
+example : parse [123, 34, 97, 34, 125] = none := by rfl
+example : parse [91, 49, 32, 50, 93] = none := by rfl
+example : parse [91, 49, 93, 93] = none := by rfl
+example : parse [] = none := by rfl
+example : parse [91, 48, 48, 93] = none := by rfl
+
+/-! ### lemmas: numbers -/
+
+theorem isDigit_iff (c : Nat) : isDigit c = true ↔ 48 ≤ c ∧ c ≤ 57 := by
+  simp [isDigit]
+
+/-- the input does not go on with a digit -/
+def noDigitHead : List Nat → Bool
+  | [] => true
+  | c :: _ => !isDigit c
+
+theorem decimal_zero : decimal 0 = [48] := by
+  rw [decimal]; simp
+
+theorem decimal_digits (n : Nat) : ∀ c ∈ decimal n, isDigit c = true := by
+  fun_induction decimal n with
+  | case1 n h => intro c hc; simp at hc; subst hc; simp [isDigit]; omega
+  | case2 n h ih =>
+    intro c hc
+    simp only [List.mem_append, List.mem_singleton] at hc
+    rcases hc with hc | hc
+    · exact ih c hc
+    · subst hc; simp [isDigit]; omega
+
+theorem decimal_ne_nil (n : Nat) : decimal n ≠ [] := by
+  fun_induction decimal n with
+  | case1 n h => simp
+  | case2 n h ih => simp
+
+theorem decimal_head (n : Nat) : (decimal n).head? = some 48 → n = 0 := by
+  fun_induction decimal n with
+  | case1 n h => simp
+  | case2 n h ih =>
+    intro hh
+    cases hd : decimal (n / 10) with
+    | nil => exact absurd hd (decimal_ne_nil _)
+    | cons a l =>
+      rw [hd] at hh ih
+      simp at hh ih
+      have := ih hh
+      omega
+
+theorem leadingZero_head (l : List Nat) (h : leadingZero l = true) :
+    l.head? = some 48 ∧ 2 ≤ l.length := by
+  match l, h with
+  | d :: _ :: _, h => simp [leadingZero] at h; simp [h]
+
+theorem decimal_not_leadingZero (n : Nat) : leadingZero (decimal n) = false := by
+  cases hl : leadingZero (decimal n) with
+  | false => rfl
+  | true =>
+    have ⟨h1, h2⟩ := leadingZero_head _ hl
+    have := decimal_head n h1
+    subst this
+    rw [decimal_zero] at h2
+    simp at h2
+
+theorem foldl_digits_snoc (l : List Nat) (d a : Nat) :
+    (l ++ [d]).foldl (fun a d => 10 * a + (d - 48)) a
+      = 10 * l.foldl (fun a d => 10 * a + (d - 48)) a + (d - 48) := by
+  simp [List.foldl_append]
+
+theorem digitsVal_decimal (n : Nat) : digitsVal (decimal n) = n := by
+  fun_induction decimal n with
+  | case1 n h => simp [digitsVal]
+  | case2 n h ih =>
+    unfold digitsVal at ih ⊢
+    rw [foldl_digits_snoc, ih]
+    omega
+
+theorem takeWhile_digits (l rest : List Nat) (hl : ∀ c ∈ l, isDigit c = true)
+    (hr : noDigitHead rest = true) :
+    (l ++ rest).takeWhile isDigit = l ∧ (l ++ rest).dropWhile isDigit = rest := by
+  induction l with
+  | nil =>
+    cases rest with
+    | nil => simp
+    | cons c r =>
+      simp [noDigitHead] at hr
+      simp [hr]
+  | cons a l ih =>
+    have ha : isDigit a = true := hl a (by simp)
+    have := ih (fun c hc => hl c (by simp [hc]))
+    simp [ha, this]
+
+theorem readNum_decimal (n : Nat) (rest : List Nat) (hr : noDigitHead rest = true) :
+    readNum (decimal n ++ rest) = some (n, rest) := by
+  have ⟨h1, h2⟩ := takeWhile_digits (decimal n) rest (decimal_digits n) hr
+  unfold readNum
+  rw [h1, h2, decimal_not_leadingZero, digitsVal_decimal]
+  have : (decimal n).isEmpty = false := by
+    cases hd : decimal n with
+    | nil => exact absurd hd (decimal_ne_nil _)
+    | cons a l => rfl
+  simp [this]
+
+/-! ### lemmas: strings -/
+
+theorem hexVal_hexDigitL (n : Nat) (h : n < 16) : hexVal (hexDigitL n) = some n := by
+  unfold hexDigitL hexVal
+  by_cases h10 : n < 10
+  · have : 48 ≤ 48 + n ∧ 48 + n ≤ 57 := by omega
+    simp [h10, this]
+  · have h1 : ¬ (48 ≤ 87 + n ∧ 87 + n ≤ 57) := by omega
+    have h2 : 97 ≤ 87 + n ∧ 87 + n ≤ 102 := by omega
+    simp [h10, h1, h2]
+
+theorem readStrBody_esc (b : Nat) (t : List Nat) :
+    readStrBody (escByte b ++ t) = (readStrBody t).map (fun p => (b :: p.1, p.2)) := by
+  unfold escByte
+  split
+  · subst_vars; simp [readStrBody_cons, unescChar]
+  split
+  · subst_vars; simp [readStrBody_cons, unescChar]
+  split
+  · subst_vars; simp [readStrBody_cons, unescChar]
+  split
+  · subst_vars; simp [readStrBody_cons, unescChar]
+  split
+  · subst_vars; simp [readStrBody_cons, unescChar]
+  split
+  · subst_vars; simp [readStrBody_cons, unescChar]
+  split
+  · subst_vars; simp [readStrBody_cons, unescChar]
+  split
+  · next hlt =>
+    have e1 := hexVal_hexDigitL (b / 16) (by omega)
+    have e2 := hexVal_hexDigitL (b % 16) (by omega)
+    have e3 : 16 * (b / 16) + b % 16 = b := by omega
+    have e4 : b < 128 := by omega
+    simp [readStrBody_cons, e1, e2, e3, e4]
+  · simp [readStrBody_cons, *]
+
+theorem readStrBody_print (s rest : List Nat) :
+    readStrBody (s.flatMap escByte ++ 34 :: rest) = some (s, rest) := by
+  induction s with
+  | nil => simp [readStrBody_cons]
+  | cons b s ih =>
+    rw [List.flatMap_cons, List.append_assoc, readStrBody_esc, ih]
+    rfl
+
+theorem readStr_print (s rest : List Nat) : readStr (printStr s ++ rest) = some (s, rest) := by
+  unfold printStr
+  simp only [List.append_assoc, List.cons_append, List.nil_append]
+  simp only [readStr, if_true]
+  exact readStrBody_print s rest
+
+/-! ### lemmas: the first byte of a printed value -/
+
+theorem print_head (j : Json) (t : List Nat) : ∃ c r, print j ++ t = c :: r ∧ c ≠ 93 := by
+  cases j with
+  | null => simp [print]
+  | bool b => cases b <;> simp [print]
+  | num n =>
+    cases hd : decimal n with
+    | nil => exact absurd hd (decimal_ne_nil n)
+    | cons a l =>
+      have ha : isDigit a = true := decimal_digits n a (by simp [hd])
+      rw [isDigit_iff] at ha
+      exact ⟨a, l ++ t, by simp [print, hd], by omega⟩
+  | str s => simp [print, printStr]
+  | arr xs => simp [print]
+  | obj kvs => simp [print]
+
+theorem printElems_head (xs : List Json) (hx : xs ≠ []) (t : List Nat) :
+    ∃ c r, printElems xs ++ t = c :: r ∧ c ≠ 93 := by
+  match xs, hx with
+  | [x], _ => simpa [printElems] using print_head x t
+  | x :: y :: zs, _ =>
+    simp only [printElems, List.append_assoc]
+    exact print_head x _
+
+/-! ### the round trip -/
+
+mutual
+theorem parseVal_print : (j : Json) → (fuel : Nat) → (rest : List Nat) →
+    (print j).length ≤ fuel → noDigitHead rest = true →
+    parseVal fuel (print j ++ rest) = some (j, rest)
+  | .null, fuel, rest, h, _ => by
+    cases fuel with
+    | zero => simp [print] at h
+    | succ f => simp [print, parseVal_cons, isDigit, expect]
+  | .bool true, fuel, rest, h, _ => by
+    cases fuel with
+    | zero => simp [print] at h
+    | succ f => simp [print, parseVal_cons, isDigit, expect]
+  | .bool false, fuel, rest, h, _ => by
+    cases fuel with
+    | zero => simp [print] at h
+    | succ f => simp [print, parseVal_cons, isDigit, expect]
+  | .num n, fuel, rest, h, hr => by
+    cases hd : decimal n with
+    | nil => exact absurd hd (decimal_ne_nil n)
+    | cons a l =>
+      cases fuel with
+      | zero => simp [print, hd] at h
+      | succ f =>
+        have ha : isDigit a = true := decimal_digits n a (by simp [hd])
+        simp only [print]
+        rw [hd, List.cons_append, parseVal_cons, if_pos ha, ← List.cons_append, ← hd,
+          readNum_decimal n rest hr]
+        rfl
+  | .str s, fuel, rest, h, _ => by
+    cases fuel with
+    | zero => simp [print, printStr] at h
+    | succ f =>
+      simp only [print, printStr, List.append_assoc, List.cons_append, List.nil_append]
+      rw [parseVal_cons]
+      simp [isDigit, readStrBody_print]
+  | .arr xs, fuel, rest, h, _ => by
+    cases fuel with
+    | zero => simp [print] at h
+    | succ f =>
+      have ih := parseElems_print xs
+      cases xs with
+      | nil => simp [print, printElems, parseVal_cons, isDigit]
+      | cons x xs' =>
+        have hlen : (printElems (x :: xs')).length < f := by simp [print] at h; omega
+        obtain ⟨c, r, hc, hne⟩ := printElems_head (x :: xs') (by simp) (93 :: rest)
+        have := ih (by simp) f rest hlen
+        simp only [print, List.append_assoc, List.cons_append, List.nil_append]
+        rw [parseVal_cons]
+        rw [hc] at this ⊢
+        simp [isDigit, hne, this]
+  | .obj kvs, fuel, rest, h, _ => by
+    cases fuel with
+    | zero => simp [print] at h
+    | succ f =>
+      have ih := parseMembers_print kvs
+      cases kvs with
+      | nil => simp [print, printMembers, parseVal_cons, isDigit]
+      | cons kv kvs' =>
+        have hlen : (printMembers (kv :: kvs')).length < f := by simp [print] at h; omega
+        have := ih (by simp) f rest hlen
+        have hc : ∃ r, printMembers (kv :: kvs') ++ 125 :: rest = 34 :: r := by
+          obtain ⟨k, v⟩ := kv
+          cases kvs' <;> simp [printMembers, printStr]
+        obtain ⟨r, hc⟩ := hc
+        simp only [print, List.append_assoc, List.cons_append, List.nil_append]
+        rw [parseVal_cons]
+        rw [hc] at this ⊢
+        simp [isDigit, this]
+theorem parseElems_print : (xs : List Json) → xs ≠ [] → (fuel : Nat) → (rest : List Nat) →
+    (printElems xs).length < fuel →
+    parseElems fuel (printElems xs ++ 93 :: rest) = some (xs, rest)
+  | [], hx, _, _, _ => absurd rfl hx
+  | [x], _, fuel, rest, h => by
+    cases fuel with
+    | zero => simp at h
+    | succ f =>
+      have hv := parseVal_print x f (93 :: rest) (by simp [printElems] at h; omega) (by simp [noDigitHead, isDigit])
+      simp only [printElems]
+      rw [parseElems_succ, hv]
+      simp
+  | x :: y :: zs, _, fuel, rest, h => by
+    cases fuel with
+    | zero => simp at h
+    | succ f =>
+      simp only [printElems, List.length_append, List.length_cons, List.length_nil] at h
+      have hv := parseVal_print x f (44 :: (printElems (y :: zs) ++ 93 :: rest)) (by omega)
+        (by simp [noDigitHead, isDigit])
+      have hl := parseElems_print (y :: zs) (by simp) f rest (by omega)
+      simp only [printElems, List.append_assoc, List.cons_append, List.nil_append]
+      rw [parseElems_succ, hv]
+      simp [hl]
+theorem parseMembers_print : (kvs : List (List Nat × Json)) → kvs ≠ [] → (fuel : Nat) →
+    (rest : List Nat) → (printMembers kvs).length < fuel →
+    parseMembers fuel (printMembers kvs ++ 125 :: rest) = some (kvs, rest)
+  | [], hx, _, _, _ => absurd rfl hx
+  | [(k, v)], _, fuel, rest, h => by
+    cases fuel with
+    | zero => simp at h
+    | succ f =>
+      simp only [printMembers, List.length_append, List.length_cons, List.length_nil] at h
+      have hv := parseVal_print v f (125 :: rest) (by omega) (by simp [noDigitHead, isDigit])
+      simp only [printMembers, List.append_assoc, List.cons_append, List.nil_append]
+      rw [parseMembers_succ, readStr_print]
+      simp [hv]
+  | (k, v) :: m :: ms, _, fuel, rest, h => by
+    cases fuel with
+    | zero => simp at h
+    | succ f =>
+      simp only [printMembers, List.length_append, List.length_cons, List.length_nil] at h
+      have hv := parseVal_print v f (44 :: (printMembers (m :: ms) ++ 125 :: rest)) (by omega)
+        (by simp [noDigitHead, isDigit])
+      have hl := parseMembers_print (m :: ms) (by simp) f rest (by omega)
+      simp only [printMembers, List.append_assoc, List.cons_append, List.nil_append]
+      rw [parseMembers_succ, readStr_print]
+      simp [hv, hl]
+end
+
+/-- the reader accepts every text the compact printer writes and gives back the value printed -/
+theorem parse_print (j : Json) : parse (print j) = some j := by
+  have h := parseVal_print j ((print j).length + 1) [] (by omega) rfl
+  rw [List.append_nil] at h
+  simp [parse, h]
+
+/-- the printed text determines the value -/
+theorem print_injective {a b : Json} (h : print a = print b) : a = b := by
+  have ha := parse_print a
+  rw [h, parse_print b] at ha
+  exact (Option.some.inj ha).symm
+
+/-! ### byte-string well-formedness (not needed for the round trip)
+
+`parse_print` holds for every tree: the escaping only looks at the bytes `< 0x20`, `"` and `\`, every
+other number is copied by the printer and by the reader alike.  `BytesOK` says that the strings and
+keys are byte strings; it is what makes the printed text a byte string. -/
+
+mutual
+/-- every element of every string and key is a byte -/
+def BytesOK : Json → Prop
+  | .null => True
+  | .bool _ => True
+  | .num _ => True
+  | .str s => ∀ b ∈ s, b < 256
+  | .arr xs => BytesOKElems xs
+  | .obj kvs => BytesOKMembers kvs
+def BytesOKElems : List Json → Prop
+  | [] => True
+  | x :: xs => BytesOK x ∧ BytesOKElems xs
+def BytesOKMembers : List (List Nat × Json) → Prop
+  | [] => True
+  | (k, v) :: m => (∀ b ∈ k, b < 256) ∧ BytesOK v ∧ BytesOKMembers m
+end
+
+/-- the statement under the hypothesis asked for (a special case of `parse_print`) -/
+theorem parse_print_of_bytesOK (j : Json) (_hb : j.BytesOK) : parse (print j) = some j :=
+  parse_print j
+
+theorem decimal_lt (n : Nat) : ∀ c ∈ decimal n, c < 256 := by
+  intro c hc
+  have := (isDigit_iff c).1 (decimal_digits n c hc)
+  omega
+
+theorem escByte_lt (b : Nat) (h : b < 256) : ∀ c ∈ escByte b, c < 256 := by
+  intro c hc
+  unfold escByte hexDigitL at hc
+  repeat' split at hc
+  all_goals (simp at hc; omega)
+
+theorem printStr_lt (s : List Nat) (h : ∀ b ∈ s, b < 256) : ∀ c ∈ printStr s, c < 256 := by
+  intro c hc
+  simp only [printStr, List.mem_append, List.mem_singleton, List.mem_flatMap] at hc
+  rcases hc with (hc | ⟨b, hb, hc⟩) | hc
+  · omega
+  · exact escByte_lt b (h b hb) c hc
+  · omega
+
+mutual
+/-- the text printed for a tree of byte strings is a byte string -/
+theorem print_lt : (j : Json) → j.BytesOK → ∀ c ∈ print j, c < 256
+  | .null, _, c, hc => by simp [print] at hc; omega
+  | .bool true, _, c, hc => by simp [print] at hc; omega
+  | .bool false, _, c, hc => by simp [print] at hc; omega
+  | .num n, _, c, hc => decimal_lt n c (by simpa [print] using hc)
+  | .str s, h, c, hc => printStr_lt s (by simpa [BytesOK] using h) c (by simpa [print] using hc)
+  | .arr xs, h, c, hc => by
+    have ih := printElems_lt xs (by simpa [BytesOK] using h) c
+    simp only [print, List.mem_append, List.mem_singleton] at hc
+    rcases hc with (hc | hc) | hc
+    · omega
+    · exact ih hc
+    · omega
+  | .obj kvs, h, c, hc => by
+    have ih := printMembers_lt kvs (by simpa [BytesOK] using h) c
+    simp only [print, List.mem_append, List.mem_singleton] at hc
+    rcases hc with (hc | hc) | hc
+    · omega
+    · exact ih hc
+    · omega
+theorem printElems_lt : (xs : List Json) → BytesOKElems xs → ∀ c ∈ printElems xs, c < 256
+  | [], _, c, hc => by simp [printElems] at hc
+  | [x], h, c, hc => print_lt x (by simp [BytesOKElems] at h; exact h) c (by simpa [printElems] using hc)
+  | x :: y :: zs, h, c, hc => by
+    simp only [BytesOKElems] at h
+    have i1 := print_lt x h.1 c
+    have i2 := printElems_lt (y :: zs) (by simpa [BytesOKElems] using h.2) c
+    simp only [printElems, List.mem_append, List.mem_singleton] at hc
+    rcases hc with (hc | hc) | hc
+    · exact i1 hc
+    · omega
+    · exact i2 hc
+theorem printMembers_lt : (kvs : List (List Nat × Json)) → BytesOKMembers kvs →
+    ∀ c ∈ printMembers kvs, c < 256
+  | [], _, c, hc => by simp [printMembers] at hc
+  | [(k, v)], h, c, hc => by
+    simp only [BytesOKMembers] at h
+    have i1 := printStr_lt k h.1 c
+    have i2 := print_lt v h.2.1 c
+    simp only [printMembers, List.mem_append, List.mem_singleton] at hc
+    rcases hc with (hc | hc) | hc
+    · exact i1 hc
+    · omega
+    · exact i2 hc
+  | (k, v) :: m :: ms, h, c, hc => by
+    simp only [BytesOKMembers] at h
+    have i1 := printStr_lt k h.1 c
+    have i2 := print_lt v h.2.1 c
+    have i3 := printMembers_lt (m :: ms) (by simpa [BytesOKMembers] using h.2.2) c
+    simp only [printMembers, List.mem_append, List.mem_singleton] at hc
+    rcases hc with (((hc | hc) | hc) | hc) | hc
+    · exact i1 hc
+    · omega
+    · exact i2 hc
+    · omega
+    · exact i3 hc
+end
+
+end Pelite.Json
